@@ -5,12 +5,12 @@ Regenerates lean/EdzedModel/Gen/TranslatedCsig.lean from the CURRENT source of
     CBlock.input_signature                         inputSignature
     CBlock.check_signature (its own statements)    checkSignature
     CBlock.check_signature.<locals>.setdiff_msg    setdiffMsg
-    Not.start / Compare.start / Override.start     notStart / compareStart / overrideStart (the expected signature)
+    (Not / Compare / Override / FuncBlock .start are translated by tools/py2lean_cblocks.py: the CALL SITES of
+     check_signature; EdzedProps/C15.lean composes them with what is translated here)
     Circuit.getblocks                              getblocks
     CBlock.__init_subclass__                       cblockInitSubclass
     CBlock.InputGetter.__getitem__                 inputGetterGetitem
     CBlock.get_conf                                cblockGetConf (the items 'type' and 'inputs')
-    FuncBlock.start                                funcBlockStart
 
 (`valuediff_msg` is translated by tools/py2lean_sig.py; the generated `Gen.Tr.sigValueDiff` is used here.)
 
@@ -109,21 +109,6 @@ structure ConfRec where
   inputs : Option (List (String × (String ⊕ List String))) := none
   deriving DecidableEq, Repr
 
-/-- the leaves of `FuncBlock.start`: `σ` the block, `F` what `self._func` may hold -/
-structure FPrims (σ F : Type) where
-  getFunc : σ → F                                   -- `self._func`
-  setFunc : F → σ → σ                               -- `self._func = …`
-  bindOf : F → F                                    -- `inspect.signature(func).bind`
-  calcOutput : Edzed.Gen.TrW.W σ Unit               -- `self.calc_output()`: calls `self._func` with the inputs
-
-/-- `try: body  finally: fin` -/
-def tryFinally {σ α : Type} (body : Edzed.Gen.TrW.W σ α) (fin : Edzed.Gen.TrW.W σ Unit) : Edzed.Gen.TrW.W σ α :=
-  fun s =>
-    match body s with
-    | (s1, r) =>
-      match fin s1 with
-      | (s2, .ok _) => (s2, r)
-      | (s2, .error e) => (s2, .error e)
 '''
 
 P = '{S V B T : Type} (P : CPrims S V B T)'
@@ -216,56 +201,6 @@ def Tr_norm(tr, node):
     return ast.parse(tr.n(node))
 
 
-def esig_literal(call):
-    """`self.check_signature({...})` with a literal dict of literal expectations -> Lean list"""
-    if not (isinstance(call, ast.Call) and ast.unparse(call.func) == 'self.check_signature'
-            and len(call.args) == 1 and not call.keywords and isinstance(call.args[0], ast.Dict)):
-        raise Untranslatable('not check_signature({literal})')
-    items = []
-    for k, v in zip(call.args[0].keys, call.args[0].values):
-        if not (isinstance(k, ast.Constant) and isinstance(k.value, str)):
-            raise Untranslatable('key ' + ast.unparse(k))
-        if isinstance(v, ast.Constant) and v.value is None:
-            e = 'none'
-        elif isinstance(v, ast.Constant) and type(v.value) is int and v.value >= 0:
-            e = f'some (.inl {v.value})'
-        elif isinstance(v, ast.Tuple) and len(v.elts) == 2 and all(
-                isinstance(x, ast.Constant) and (x.value is None or (type(x.value) is int and x.value >= 0))
-                for x in v.elts):
-            lo, hi = ('none' if x.value is None else f'some {x.value}' for x in v.elts)
-            e = f'some (.inr ({lo}, {hi}))'
-        else:
-            raise Untranslatable('expected item ' + ast.unparse(v))
-        items.append(f'("{k.value}", {e})')
-    return '[' + ', '.join(items) + ']'
-
-
-def t_start(cls_name, lean_name):
-    def target():
-        from edzed import block
-        from edzed.blocklib import cblocks
-        cls = getattr(cblocks, cls_name)
-        if cls.__mro__[1] is not block.CBlock or 'start' not in cls.__dict__:
-            raise Untranslatable(f'{cls_name}: class hierarchy')
-        if 'check_signature' in cls.__dict__ or 'input_signature' in cls.__dict__:
-            raise Untranslatable(f'{cls_name} overrides the signature check')
-        fn = fn_node(cls.start)
-        check_plain(fn, ['self'])
-        body = [s for s in fn.body if not (isinstance(s, ast.Expr) and isinstance(s.value, ast.Constant))]
-        # the statements in order: super().start() (Block.start: a no-op hook), then the check
-        srcs = [ast.unparse(s) for s in body]
-        if len(body) != 2 or srcs[0] != 'super().start()' or not isinstance(body[1], ast.Expr):
-            raise Untranslatable(f'{cls_name}.start: statements {srcs}')
-        hook = fn_node(block.Block.start)
-        if any(not (isinstance(x, ast.Expr) and isinstance(x.value, ast.Constant)) and not isinstance(x, ast.Pass)
-               for x in hook.body):
-            raise Untranslatable('Block.start is not an empty hook')
-        return (f'{cls_name}.start',
-                f'def {lean_name} : List (String × E) :=\n  {esig_literal(body[1].value)}')
-    target.__name__ = 't_' + lean_name
-    return target
-
-
 def t_getblocks():
     from edzed import simulator
     fn = fn_node(simulator.Circuit.getblocks)
@@ -312,56 +247,6 @@ def t_getitem():
             + emit(tr, fn, 'W.pure (Sum.inr [])', {'name'}))
 
 
-def t_funcblock_start():
-    """FuncBlock.start: the structure try / except TypeError / finally and the statements come from the
-    AST; `func = self._func` (an attribute read, cannot raise) is bound before the try so that the
-    `finally` clause can use it"""
-    from edzed.blocklib import cblocks
-    import inspect as _inspect
-    if cblocks.FuncBlock.start.__globals__.get('inspect') is not _inspect:
-        raise Untranslatable('inspect is not the standard module')
-    if 'calc_output' not in cblocks.FuncBlock.__dict__:
-        raise Untranslatable('FuncBlock.calc_output')
-    fn = fn_node(cblocks.FuncBlock.start)
-    check_plain(fn, ['self'])
-    body = [x for x in fn.body if not (isinstance(x, ast.Expr) and isinstance(x.value, ast.Constant))]
-    if len(body) != 2 or not isinstance(body[0], ast.Try) or ast.unparse(body[1]) != 'super().start()':
-        raise Untranslatable('FuncBlock.start: ' + str([type(x).__name__ for x in body]))
-    tr_ = body[0]
-    if tr_.orelse or len(tr_.handlers) != 1 or not tr_.finalbody:
-        raise Untranslatable('FuncBlock.start: try shape')
-    table = {'self._func = inspect.signature(func).bind': 'W.modify (P.setFunc (P.bindOf func_))',
-             'self.calc_output()': 'P.calcOutput',
-             'self._func = func': 'W.modify (P.setFunc func_)'}
-    tb = [ast.unparse(x) for x in tr_.body]
-    if not tb or tb[0] != 'func = self._func':
-        raise Untranslatable('FuncBlock.start: the try does not begin with `func = self._func`')
-    for x in tb[1:] + [ast.unparse(y) for y in tr_.finalbody]:
-        if x not in table:
-            raise Untranslatable(f'FuncBlock.start: statement `{x}`')
-    h = tr_.handlers[0]
-    if h.type is None or not isinstance(h.type, ast.Name):
-        raise Untranslatable('FuncBlock.start: handler type')
-    caught = h.type.id
-    if not (len(h.body) == 1 and isinstance(h.body[0], ast.Raise) and isinstance(h.body[0].exc, ast.Call)
-            and isinstance(h.body[0].exc.func, ast.Name)):
-        raise Untranslatable('FuncBlock.start: handler body')
-    raised = h.body[0].exc.func.id
-    lines = ['def funcBlockStart {σ F : Type} (P : FPrims σ F) : W σ Unit :=',
-             '  W.bind (W.gets P.getFunc) fun func_ =>',
-             '  W.bind (tryFinally (', '    W.tryExcept (']
-    for x in tb[1:]:
-        lines.append(f'      W.bind ({table[x]}) fun _ =>')
-    lines += ['      W.pure ()', f'    ) fun (e_ : PyExc) => if e_ == "{caught}" then W.raise "{raised}" else W.raise e_',
-              '  ) (']
-    for x in [ast.unparse(y) for y in tr_.finalbody]:
-        lines.append(f'    W.bind ({table[x]}) fun _ =>')
-    lines += ['    W.pure ())) fun _ =>', '  W.pure ()        -- super().start(): Block.start, an empty hook']
-    text = '\n'.join(lines).replace('W.', 'Edzed.Gen.TrW.W.').replace('PyExc', 'Edzed.Gen.TrW.PyExc')
-    text = text.replace('(P : FPrims σ F) : W σ Unit', '(P : FPrims σ F) : Edzed.Gen.TrW.W σ Unit')
-    return ('FuncBlock.start', text)
-
-
 def t_get_conf():
     from edzed import block
     fn = fn_node(block.CBlock.get_conf)
@@ -385,15 +270,14 @@ def t_get_conf():
             + emit(tr, fn, 'W.pure v0', set()))
 
 
-TARGETS = [t_get_conf, t_funcblock_start, t_input_signature, t_setdiff_msg, t_check_signature, t_start('Not', 'notStart'),
-           t_start('Compare', 'compareStart'), t_start('Override', 'overrideStart'), t_getblocks,
+TARGETS = [t_get_conf, t_input_signature, t_setdiff_msg, t_check_signature, t_getblocks,
            t_init_subclass, t_getitem]
 
 
 def main_csig(outfile, write_if_changed):
     L = ['/- GENERATED by tools/py2lean_csig.py (via tools/py2lean.py) from the Python source of edzed -- do not edit -/',
-         'import EdzedModel.Gen.TranslatedSig', 'import EdzedModel.Gen.TranslatedWiring', '', 'set_option linter.unusedVariables false', '',
-         'namespace Edzed.Gen.TrC', '', PRELUDE]
+         'import EdzedModel.Gen.TranslatedSig', '', 'set_option linter.unusedVariables false', '',
+         'namespace Edzed.Gen.TrCS', '', PRELUDE]
     for t in TARGETS:
         try:
             doc, text = t()
@@ -405,5 +289,5 @@ def main_csig(outfile, write_if_changed):
             L.append(f'-- UNTRANSLATABLE `{t.__name__[2:]}`: definition omitted ({msg})')
             L.append('')
             print(f'UNTRANSLATABLE csig {t.__name__[2:]}: {msg}')
-    L += ['end Edzed.Gen.TrC']
+    L += ['end Edzed.Gen.TrCS']
     write_if_changed(outfile, '\n'.join(L) + '\n')
